@@ -3,7 +3,7 @@
    check on altered covered bytes exhibits a collision). *)
 From Coq Require Import List Arith NArith.
 From Jbk Require Import Base.ListExtra Base.Bytes Base.Crc Base.Parser Base.Prog Format.Structs
-  Manifest.Mask Manifest.SetLocation Container.Damage Container.Check.
+  Manifest.Mask Manifest.SetLocation Container.Damage Container.Check Container.EmbedPacks.
 Import ListNotations.
 
 Theorem C04_created_pack_verifies :
@@ -56,9 +56,16 @@ Theorem C04_container_check_is_a_conjunction :
   forall rs, all_checks rs = Ok true <-> Forall (fun r => r = Ok true) rs.
 Proof. exact all_checks_true. Qed.
 
+(* the verdict does not depend on where the pack lies: embedded behind any prefix (one-file packaging, concat in any
+   order, a container appended to another file) the check of a pack answers what it answers on the pack alone *)
+Theorem C04_check_is_translation_invariant :
+  forall (H : list N -> list N) X f pos, pack_check H (X ++ f) (lenN X + pos)%N = pack_check H f pos.
+Proof. exact pack_check_is_translation_invariant. Qed.
+
 Print Assumptions C04_created_pack_verifies.
 Print Assumptions C04_passing_check_on_altered_bytes_is_a_collision.
 Print Assumptions C04_altered_covered_bytes_fail_the_check.
 Print Assumptions C04_damage_in_header_or_check_block.
 Print Assumptions C04_manifest_exempt_bytes_exactly.
 Print Assumptions C04_container_check_is_a_conjunction.
+Print Assumptions C04_check_is_translation_invariant.
